@@ -80,19 +80,36 @@ def cecase(c):
     fz = core.clist(["None" if x is None else "(Some %s)" % core.cz(x) for x in (c.get("fuzzy") or [])])
     cmds = core.clist([ccmd(e, lc) for e, lc in zip(c.get("db") or [], c.get("cmd_lc") or [])])
     return ("{| k_stop := stopw; k_tools := toolw; k_host := %s; k_params := %s; k_idf := %s; k_fuzzy := %s; k_cmds := %s; k_q := %s; "
-            "k_opts := %s; k_nlp := %s; k_obs := %s; k_extra := %s; k_recased := %s; k_nlp_keywords := %s; k_nlp_sig := %s; k_nlp_sig2 := %s; k_doc_toks := %s; k_q_toks := %s; k_logt := %s |}") % (
+            "k_opts := %s; k_nlp := %s; k_obs := %s; k_extra := %s; k_recased := %s; k_nlp_keywords := %s; k_nlp_sig := %s; k_nlp_sig2 := %s; k_doc_toks := %s; k_q_toks := %s; k_logt := %s; k_tabs := {| t_stop := stopw; t_actions := nlp_actions; t_targets := nlp_targets; t_synonyms := nlp_synonyms |}; "
+            "k_words := %s; k_qlower := %s; k_nlp_intent := %s; k_nlp_hints := %s |}") % (
         core.cbytes(bytes(c["host"] or [])), params, core.clist([core.cfloat(x) for x in c["idf"]]), fz, cmds,
         core.cbytes(bytes(c["q"] or [])), copts(c["opts"]), cnlp(c["nlp"]), cres(c.get("obs")), extra,
         core.cbytes(bytes(c.get("recased") or [])), cbl(c["nlp"].get("keywords")), cbl(c["nlp"].get("sig")), cbl(c["nlp"].get("sig2")),
-        core.clist([cbl(d) for d in (c["nlp"].get("doc_toks") or [])]), cbl(c["nlp"].get("q_toks")), core.clist([core.cfloat(x) for x in (c["nlp"].get("logt") or [])]))
+        core.clist([cbl(d) for d in (c["nlp"].get("doc_toks") or [])]), cbl(c["nlp"].get("q_toks")), core.clist([core.cfloat(x) for x in (c["nlp"].get("logt") or [])]),
+        cbl(c["nlp"].get("words")), core.cbytes(bytes(c["nlp"].get("q_lower") or [])), INTENTS.get(c["nlp"].get("intent"), "IGeneral"), cbl(c["nlp"].get("hints")))
+
+
+_TAB = {}
+INTENTS = {"general": "IGeneral", "find": "IFind", "create": "ICreate", "delete": "IDelete", "modify": "IModify", "view": "IView", "run": "IRun",
+           "install": "IInstall", "configure": "IConfigure"}
+
+
+def ctab(pairs):
+    return core.clist(["(%s, %s)" % (core.cbytes(bytes(p["k"] or [])), cbl(p["v"])) for p in (pairs or [])])
 
 
 def eng_preamble(cases):
-    """stop words and tool list are the same for every case of a run: define them once per file"""
+    """stop words, tool list and the NLP word tables are the same for every case of a run: define them once per file"""
+    for c in cases:
+        if c.get("nlp_tables"):
+            _TAB["t"] = c["nlp_tables"]
+    t = _TAB.get("t") or {"actions": [], "targets": [], "synonyms": []}
+    tabs = ("Definition nlp_actions : list (list N * list (list N)) := %s.\nDefinition nlp_targets : list (list N * list (list N)) := %s.\n"
+            "Definition nlp_synonyms : list (list N * list (list N)) := %s.\n" % (ctab(t["actions"]), ctab(t["targets"]), ctab(t["synonyms"])))
     for c in cases:
         if c.get("stop") is not None:
-            return "Definition stopw : list (list N) := %s.\nDefinition toolw : list (list N) := %s.\n" % (cbl(c["stop"]), cbl(c["tools"]))
-    return "Definition stopw : list (list N) := [].\nDefinition toolw : list (list N) := [].\n"
+            return "Definition stopw : list (list N) := %s.\nDefinition toolw : list (list N) := %s.\n" % (cbl(c["stop"]), cbl(c["tools"])) + tabs
+    return "Definition stopw : list (list N) := [].\nDefinition toolw : list (list N) := [].\n" + tabs
 
 
 def eng_sample(c):
@@ -119,7 +136,7 @@ def eng_shrink(c):
             d = dict(c); d["q"] = list(b" ".join(ws[:i] + ws[i + 1:])); d["recased"] = d["q"]; yield d
 
 
-ENG_HEADER = "From WTF Require Import Model.Validate Model.Text Model.Platform Model.Engine Check.EngineTypes Check.Eng."
+ENG_HEADER = "From WTF Require Import Model.Validate Model.Text Model.Platform Model.Engine Model.Nlp Check.EngineTypes Check.Eng."
 ENG_RULE = ("engine cases: databases of 0-41 entries built from a 75-word vocabulary (actions, targets, stop words, tool names) with planted duplicates, "
             "entries identical except for one field, equal-scoring groups, empty fields, punctuation glue, multi-byte / invalid bytes, platform tags from "
             "{none, linux, macos, windows, darwin, powershell, cmd, bash, unix, Cross-Platform, unknown, mixed case}, pipeline markers; queries of 0-15 words "
